@@ -46,7 +46,7 @@ func genC09(r *Rng, tier string, idx int) *Plan {
 			case 0, 1:
 				p.Ops = append(p.Ops, Op{ID: nid(), Kind: "nav", Path: target})
 			case 2:
-				p.Ops = append(p.Ops, Op{ID: nid(), Kind: "logout", S: []string{"", "?x=1", "#frag", "?a=b#c"}[r.Intn(4)]})
+				p.Ops = append(p.Ops, Op{ID: nid(), Kind: "logout", S: []string{"", "?x=1", "#frag", "?a=b#c", "?rd=/home?tab=1", "?a=b?c=d#e?f"}[r.Intn(6)]})
 			case 3:
 				p.Ops = append(p.Ops, Op{ID: nid(), Kind: "send", Path: target, S: "stale"})
 			case 4:
